@@ -209,11 +209,14 @@ pub(crate) fn sort_requires(ctx: &Context, input_ast: Ast) -> Ast {
                 // Sort our list of requires
                 list.sort_by_key(|key| key.0.clone());
 
-                // Mutate the first element with our leading trivia
+                // Mutate the first element with our leading trivia, keeping what it carries itself
+                // (a comment written in front of it on its own line)
                 match list.first_mut() {
                     Some((_, (Stmt::LocalAssignment(local_assignment), _))) => {
+                        let mut trivia: Vec<_> = leading_trivia;
+                        trivia.extend(local_assignment.local_token().leading_trivia().cloned());
                         *local_assignment = local_assignment
-                            .update_leading_trivia(FormatTriviaType::Replace(leading_trivia))
+                            .update_leading_trivia(FormatTriviaType::Replace(trivia))
                     }
                     _ => unreachable!(),
                 };
